@@ -1,6 +1,280 @@
-//! Edwards point operations (C03, C04).
+//! Edwards point operations (C03) and every scalar-multiplication entry point (C04).
 use crate::*;
+use curve25519_dalek::constants;
+use curve25519_dalek::edwards::CompressedEdwardsY;
+use curve25519_dalek::traits::{Identity, IsIdentity, MultiscalarMul, VartimeMultiscalarMul, VartimePrecomputedMultiscalarMul};
+#[cfg(feature = "tables")]
+use curve25519_dalek::traits::BasepointTable;
+use subtle::{Choice, ConditionallySelectable, ConstantTimeEq};
 
-pub fn run(op: &str, _e: &Value, _ctx: &mut Ctx) -> Result<Value, String> {
-    Err(format!("unknown op {op}"))
+/// Observation of a point: compressed bytes and the canonical bytes of (X, Y, Z, T).
+pub fn ed_obs(p: &EdwardsPoint) -> Value {
+    let c = hook::edwards_coords(p);
+    json!({"c": jbytes(p.compress().as_bytes()),
+           "xyzt": [jbytes(&c[0].as_bytes()), jbytes(&c[1].as_bytes()), jbytes(&c[2].as_bytes()), jbytes(&c[3].as_bytes())]})
+}
+fn set_ed(ctx: &mut Ctx, e: &Value, p: EdwardsPoint) -> Result<Value, String> {
+    ctx.set(&out_name(e)?, Reg::Ed(p));
+    Ok(json!({"ok": true, "r": ed_obs(&p)}))
+}
+fn set_opt(ctx: &mut Ctx, e: &Value, p: Option<EdwardsPoint>) -> Result<Value, String> {
+    match p {
+        Some(p) => set_ed(ctx, e, p),
+        None => {
+            ctx.set(&out_name(e)?, Reg::None);
+            Ok(json!({"ok": false}))
+        }
+    }
+}
+fn scalars_of(ctx: &Ctx, v: &Value) -> Result<Vec<Scalar>, String> {
+    v.as_array().ok_or("scalars: array expected")?.iter().map(|x| sc_arg(ctx, x)).collect()
+}
+fn points_of(ctx: &Ctx, v: &Value) -> Result<Vec<EdwardsPoint>, String> {
+    v.as_array().ok_or("points: array expected")?.iter().map(|x| ed_arg(ctx, x)).collect()
+}
+fn opt_points_of(ctx: &Ctx, v: &Value) -> Result<Vec<Option<EdwardsPoint>>, String> {
+    v.as_array().ok_or("points: array expected")?.iter().map(|x| ed_opt_arg(ctx, x)).collect()
+}
+fn sc_bytes(v: &[Scalar]) -> Value {
+    Value::Array(v.iter().map(|s| jbytes(&s.to_bytes())).collect())
+}
+
+pub fn run(op: &str, e: &Value, ctx: &mut Ctx) -> Result<Value, String> {
+    match op {
+        // ---- constructors ----------------------------------------------------------
+        "ed.decompress" => {
+            let b = arr32(inp(e, 0)?)?;
+            set_opt(ctx, e, CompressedEdwardsY(b).decompress())
+        }
+        "ed.from_slice" => {
+            // CompressedEdwardsY::from_slice / TryFrom<&[u8]> then decompress; any length
+            let b = bytes_of(inp(e, 0)?)?;
+            let a = CompressedEdwardsY::from_slice(&b);
+            let t = CompressedEdwardsY::try_from(&b[..]);
+            if a.is_ok() != t.is_ok() {
+                panic!("from_slice and TryFrom disagree");
+            }
+            match a {
+                Ok(c) => {
+                    let p = c.decompress();
+                    let ok = p.is_some();
+                    ctx.set(&out_name(e)?, p.map(Reg::Ed).unwrap_or(Reg::None));
+                    Ok(json!({"len_ok": true, "ok": ok, "r": p.map(|p| ed_obs(&p)).unwrap_or(json!({}))}))
+                }
+                Err(_) => {
+                    ctx.set(&out_name(e)?, Reg::None);
+                    Ok(json!({"len_ok": false, "ok": false}))
+                }
+            }
+        }
+        "ed.basepoint" => set_ed(ctx, e, constants::ED25519_BASEPOINT_POINT),
+        "ed.identity" => set_ed(ctx, e, EdwardsPoint::identity()),
+        "ed.default" => set_ed(ctx, e, EdwardsPoint::default()),
+        "ed.torsion" => set_ed(ctx, e, constants::EIGHT_TORSION[uint(e, "k")? as usize % 8]),
+        "ed.compressed_identity" => {
+            let a = CompressedEdwardsY::identity();
+            let b = CompressedEdwardsY::default();
+            Ok(json!({"a": jbytes(a.as_bytes()), "b": jbytes(b.as_bytes())}))
+        }
+        // ---- group operations ---------------------------------------------------------
+        "ed.add" | "ed.sub" | "ed.add_assign" | "ed.sub_assign" | "ed.add_owned" | "ed.sub_owned" => {
+            let a = ed_arg(ctx, inp(e, 0)?)?;
+            let b = ed_arg(ctx, inp(e, 1)?)?;
+            let r = match op {
+                "ed.add" => &a + &b,
+                "ed.sub" => &a - &b,
+                "ed.add_owned" => a + b,
+                "ed.sub_owned" => a - b,
+                "ed.add_assign" => { let mut t = a; t += &b; t }
+                _ => { let mut t = a; t -= b; t }
+            };
+            set_ed(ctx, e, r)
+        }
+        "ed.neg" | "ed.neg_owned" | "ed.double" | "ed.mul_by_cofactor" | "ed.mul_by_pow_2" | "ed.copy" => {
+            let a = ed_arg(ctx, inp(e, 0)?)?;
+            let r = match op {
+                "ed.neg" => -&a,
+                "ed.neg_owned" => -a,
+                "ed.double" => hook::edwards_double(&a),
+                "ed.mul_by_cofactor" => a.mul_by_cofactor(),
+                "ed.copy" => a,
+                _ => hook::edwards_mul_by_pow_2(&a, uint(e, "k")? as u32),
+            };
+            set_ed(ctx, e, r)
+        }
+        "ed.sum" => {
+            let ps = points_of(ctx, &e["in"])?;
+            let r: EdwardsPoint = if flag(e, "owned").unwrap_or(false) { ps.into_iter().sum() } else { ps.iter().sum() };
+            set_ed(ctx, e, r)
+        }
+        "ed.cond_select" | "ed.cond_assign" => {
+            let a = ed_arg(ctx, inp(e, 0)?)?;
+            let b = ed_arg(ctx, inp(e, 1)?)?;
+            let c = Choice::from(flag(e, "c")? as u8);
+            let r = if op == "ed.cond_select" {
+                EdwardsPoint::conditional_select(&a, &b, c)
+            } else {
+                let mut t = a;
+                t.conditional_assign(&b, c);
+                t
+            };
+            set_ed(ctx, e, r)
+        }
+        // ---- observations --------------------------------------------------------------
+        "ed.compress" => {
+            let a = ed_arg(ctx, inp(e, 0)?)?;
+            Ok(json!({"r": ed_obs(&a)}))
+        }
+        "ed.eq" => {
+            let a = ed_arg(ctx, inp(e, 0)?)?;
+            let b = ed_arg(ctx, inp(e, 1)?)?;
+            let ct: bool = a.ct_eq(&b).into();
+            let cc: bool = a.compress().ct_eq(&b.compress()).into();
+            Ok(json!({"ok": a == b, "ct": ct, "cc": cc}))
+        }
+        "ed.is_identity" | "ed.is_small_order" | "ed.is_torsion_free" => {
+            let a = ed_arg(ctx, inp(e, 0)?)?;
+            let r = match op {
+                "ed.is_identity" => a.is_identity(),
+                "ed.is_small_order" => a.is_small_order(),
+                _ => a.is_torsion_free(),
+            };
+            Ok(json!({"ok": r}))
+        }
+        "ed.to_montgomery" => {
+            let a = ed_arg(ctx, inp(e, 0)?)?;
+            let m = a.to_montgomery();
+            if let Some(o) = e["out"].as_str() {
+                ctx.set(o, Reg::Mont(m));
+            }
+            Ok(json!({"u": jbytes(m.as_bytes())}))
+        }
+        // ---- scalar multiplication: single point ---------------------------------------
+        "ed.mul" | "ed.mul_rev" | "ed.mul_assign" | "ed.mul_owned" => {
+            let a = ed_arg(ctx, inp(e, 0)?)?;
+            let s = sc_arg(ctx, inp(e, 1)?)?;
+            let r = match op {
+                "ed.mul" => &a * &s,
+                "ed.mul_rev" => &s * &a,
+                "ed.mul_owned" => a * s,
+                _ => { let mut t = a; t *= &s; t }
+            };
+            let mut o = set_ed(ctx, e, r)?;
+            o["s"] = jbytes(&s.to_bytes());
+            Ok(o)
+        }
+        "ed.mul_base" => {
+            let s = sc_arg(ctx, inp(e, 0)?)?;
+            let mut o = set_ed(ctx, e, EdwardsPoint::mul_base(&s))?;
+            o["s"] = jbytes(&s.to_bytes());
+            Ok(o)
+        }
+        "ed.mul_clamped" => {
+            let a = ed_arg(ctx, inp(e, 0)?)?;
+            set_ed(ctx, e, a.mul_clamped(arr32(inp(e, 1)?)?))
+        }
+        "ed.mul_base_clamped" => set_ed(ctx, e, EdwardsPoint::mul_base_clamped(arr32(inp(e, 0)?)?)),
+        "ed.vartime_double_scalar_mul_basepoint" => {
+            let a = sc_arg(ctx, inp(e, 0)?)?;
+            let p = ed_arg(ctx, inp(e, 1)?)?;
+            let b = sc_arg(ctx, inp(e, 2)?)?;
+            let mut o = set_ed(ctx, e, EdwardsPoint::vartime_double_scalar_mul_basepoint(&a, &p, &b))?;
+            o["a"] = jbytes(&a.to_bytes());
+            o["b"] = jbytes(&b.to_bytes());
+            Ok(o)
+        }
+        // ---- basepoint tables in every radix ----------------------------------------------
+        #[cfg(feature = "tables")]
+        "ed.table" => {
+            // create a table of the given radix from point in[0], then mul_base(in[1]); also basepoint()
+            use curve25519_dalek::edwards::*;
+            let p = ed_arg(ctx, inp(e, 0)?)?;
+            let s = sc_arg(ctx, inp(e, 1)?)?;
+            let clamped = flag(e, "clamped").unwrap_or(false);
+            macro_rules! go {
+                ($t:ty) => {{
+                    let t = <$t>::create(&p);
+                    let r = if clamped { t.mul_base_clamped(s.to_bytes()) } else if flag(e, "op_mul").unwrap_or(false) { &s * &t } else { t.mul_base(&s) };
+                    (r, t.basepoint())
+                }};
+            }
+            let (r, bp) = match uint(e, "radix")? {
+                16 => go!(EdwardsBasepointTableRadix16),
+                32 => go!(EdwardsBasepointTableRadix32),
+                64 => go!(EdwardsBasepointTableRadix64),
+                128 => go!(EdwardsBasepointTableRadix128),
+                256 => go!(EdwardsBasepointTableRadix256),
+                _ => return Err("radix".into()),
+            };
+            let mut o = set_ed(ctx, e, r)?;
+            o["s"] = jbytes(&s.to_bytes());
+            o["bp"] = ed_obs(&bp);
+            Ok(o)
+        }
+        #[cfg(feature = "tables")]
+        "ed.table_static" => {
+            // the shipped ED25519_BASEPOINT_TABLE, optionally converted to another radix
+            use curve25519_dalek::edwards::*;
+            let s = sc_arg(ctx, inp(e, 0)?)?;
+            let t16 = constants::ED25519_BASEPOINT_TABLE;
+            let r = match uint(e, "radix")? {
+                16 => t16.mul_base(&s),
+                32 => EdwardsBasepointTableRadix32::from(t16).mul_base(&s),
+                64 => EdwardsBasepointTableRadix64::from(t16).mul_base(&s),
+                128 => EdwardsBasepointTableRadix128::from(t16).mul_base(&s),
+                256 => EdwardsBasepointTableRadix256::from(t16).mul_base(&s),
+                _ => return Err("radix".into()),
+            };
+            let mut o = set_ed(ctx, e, r)?;
+            o["s"] = jbytes(&s.to_bytes());
+            Ok(o)
+        }
+        // ---- multiscalar ---------------------------------------------------------------------
+        "ed.multiscalar_mul" | "ed.vartime_multiscalar_mul" => {
+            let ss = scalars_of(ctx, &e["scalars"])?;
+            let ps = points_of(ctx, &e["points"])?;
+            let r = if op == "ed.multiscalar_mul" {
+                EdwardsPoint::multiscalar_mul(ss.iter(), ps.iter())
+            } else {
+                EdwardsPoint::vartime_multiscalar_mul(ss.iter(), ps.iter())
+            };
+            let mut o = set_ed(ctx, e, r)?;
+            o["ss"] = sc_bytes(&ss);
+            Ok(o)
+        }
+        "ed.optional_multiscalar_mul" => {
+            let ss = scalars_of(ctx, &e["scalars"])?;
+            let ps = opt_points_of(ctx, &e["points"])?;
+            let r = EdwardsPoint::optional_multiscalar_mul(ss.iter(), ps.into_iter());
+            let mut o = set_opt(ctx, e, r)?;
+            o["ss"] = sc_bytes(&ss);
+            Ok(o)
+        }
+        "ed.precomputed" => {
+            // VartimeEdwardsPrecomputation over `static_points`; then one of the three entry points
+            let sp = points_of(ctx, &e["static_points"])?;
+            let ss = scalars_of(ctx, &e["static_scalars"])?;
+            let ds = scalars_of(ctx, &e["dynamic_scalars"])?;
+            let pre = curve25519_dalek::edwards::VartimeEdwardsPrecomputation::new(sp.iter());
+            let len_ok = pre.len() == sp.len() && pre.is_empty() == sp.is_empty();
+            let mode = e["mode"].as_str().unwrap_or("mixed");
+            let r = match mode {
+                "static" => Some(pre.vartime_multiscalar_mul(ss.iter())),
+                "mixed" => {
+                    let dp = points_of(ctx, &e["dynamic_points"])?;
+                    Some(pre.vartime_mixed_multiscalar_mul(ss.iter(), ds.iter(), dp.iter()))
+                }
+                _ => {
+                    let dp = opt_points_of(ctx, &e["dynamic_points"])?;
+                    pre.optional_mixed_multiscalar_mul(ss.iter(), ds.iter(), dp.into_iter())
+                }
+            };
+            let mut o = set_opt(ctx, e, r)?;
+            o["ss"] = sc_bytes(&ss);
+            o["ds"] = sc_bytes(&ds);
+            o["len_ok"] = json!(len_ok);
+            Ok(o)
+        }
+        _ => Err(format!("unknown op {op}")),
+    }
 }
